@@ -8,6 +8,9 @@
    (pieces between which the model may cut the flight into segments):
      http flight:  r0 "GE" | rl1 "T /x " | rl2 "HTTP/1.1 CRLF User-Agent..CRLF" | host (the Host line) | end (rest + CRLF CRLF)
      tls flight:   t1 (2 bytes) | t2 (3 more: record header) | t3 (part of the ClientHello) | t4 (the rest)
+                   | t5 (the non-handshake records a 0-RTT client sends behind the hello: CCS + early data; they may
+                     arrive in the segment that completes the hello -- get_client_hello stops at the end of the
+                     ClientHello and never looks at them, so they do not change Decide)
      other flight: o1 | o2
    Evidence classes: "I" matches ignore_hosts, "A" matches allow_hosts, "B" both, "N" neither.
    Decide transcribes the code on the token level:
